@@ -35,13 +35,20 @@ class P(EngProp):
                 r["ts"] = recs[0]["ts"] + i * 7 if i else r["ts"]
             labels = egen.QLABELS + ["level", "msg", "nosuch"]
             words = egen.WORDS
+            # IPv6 addresses in lines and IPv6 patterns: outside the modelled fragment, the relations are demanded on the observed results
+            v6 = theme in ("ip", "plain") and rng.random() < 0.5
+            if v6:
+                for r in recs:
+                    if rng.random() < 0.6:
+                        r["line"] = B(rng.choice(["conn %s ok", "%s", "from [%s]:443 refused", "x %s y 10.0.0.1"]) % rng.choice(egen.ADDRS6))
+                theme += "+v6"
 
             def a_filter():
                 k = rng.randrange(5)
                 if k <= 2:
                     return g.line_filter(words=words)
                 if k == 3 and theme in ("ip", "plain", "attrs"):
-                    return g.ip_line_filter()
+                    return g.ip_line_filter(v6=0.4 if v6 else 0.0)
                 m = g.matcher(labels, for_stage=True)
                 rx = None
                 return {"k": "filter", "p": {"k": "m", "l": m["l"], "op": m["op"], "v": m["v"]}, "coq": "ELabelFilter (EPMatch %s %s)" % (cbytes(B(m["l"])), m["sm"]),
@@ -56,7 +63,7 @@ class P(EngProp):
                 sm = m["sm"].replace("(sm %s " % egen.OPNAME[m["op"]], "(sm %s " % egen.OPNAME[op], 1)
                 return {"k": "filter", "p": {"k": "m", "l": m["l"], "op": op, "v": m["v"]}, "coq": "ELabelFilter (EPMatch %s %s)" % (cbytes(B(m["l"])), sm)}
 
-            f, gg = a_filter(), a_filter()
+            f, gg = (g.ip_line_filter(v6=0.7) if v6 else a_filter()), a_filter()
             nf = negate(f)
             pa = g.pred(labels, depth=1, pure=True)
             pb = g.pred(labels, depth=1, pure=True)
